@@ -82,7 +82,7 @@ def evaluate(case, stt):
 
     # the drawn layout
     if multi:
-        with gen_macro.Workspace(case, lambda p: render.render(p)) as ws:
+        with gen_macro.Workspace(case, _render_file) as ws:
             main_text = ws.texts[case["main_path"]]
             comp, exc = call_guard(lambda: compile_text(main_text, ws.main_path, ws.lookup_paths))
             shown = "\n".join(f"=== {p}\n{t}" for p, t in ws.texts.items())
@@ -146,6 +146,18 @@ def evaluate(case, stt):
     if len(stt.samples) < 2 and nontrivial and maxdepth >= 2 and not fails:
         stt.sample({"files": shown[:2000]})
     return fails
+
+
+def _render_file(p):
+    """every other file is written with drawn spellings (quote style of import paths and strings, integer bases, header
+    forms); the tape is a function of the file's content"""
+    import hashlib
+    import json as _json
+
+    h = hashlib.sha1(_json.dumps(p, sort_keys=True, default=str).encode()).digest()
+    if h[0] % 2:
+        return render.render(p, render.Tape([b * 41 + i for i, b in enumerate(h)]))
+    return render.render(p)
 
 
 def _workspace_build(ws, lib, main_text):
